@@ -604,7 +604,12 @@ impl Scenario for WStream {
         };
         let ids = crate::sc_stream::gen_items(rng, n, ElemT::U32);
         let ids: Vec<u64> = ids.into_iter().filter(|i| *i != PLACEHOLDER && *i < 0xffff_0000).collect();
-        let ids = if ids.is_empty() { vec![1] } else { ids };
+        let mut ids = if ids.is_empty() { vec![1] } else { ids };
+        // "all finite weighted sets" includes a set that contains the very object given to `new` as filler
+        if rng.chance(0.03) {
+            let pos = rng.usize_below(ids.len() + 1);
+            ids.insert(pos, PLACEHOLDER);
+        }
         let n = ids.len();
         let ws = gen_weights(rng, n, tiny);
         let wset: Vec<(u64, u64)> = ids.iter().zip(ws.iter()).map(|(i, w)| (*i, w.to_bits())).collect();
@@ -698,6 +703,9 @@ impl Scenario for WStream {
         };
         if ghosts_ok {
             ctx.count("fault:zero-weight-ghost-entries");
+        }
+        if ids.contains(&PLACEHOLDER) {
+            ctx.count("probe:set-contains-the-filler-object");
         }
         let mut node = make_wnode(plan);
         let mut delivered: BTreeSet<usize> = BTreeSet::new();
